@@ -4541,6 +4541,9 @@ class QntCnfMacro(Macro):
         cnf_body = get_cnf(body)
 
         ys, concl_body = concl.strip_forall()
+        # The conclusion is generalized over ys: none of them may be free in the premise
+        if any(prem.occurs_var(y) for y in ys):
+            raise VeriTException("qnt_cnf", "a variable quantified in the conclusion is free in the premise")
 
         cnf_body_conjs = cnf_body.strip_conj()
         if any(concl_body == t for t in cnf_body_conjs):
